@@ -13,13 +13,14 @@ from .wrapcheck import run_cases
 FMTS = ["json", "yaml", "toml", "cue"]
 
 
-def write_model(d, leaves, fmts, max_changes, toggles=(), emit=True):
+def write_model(d, leaves, fmts, max_changes, toggles=(), emit=True, alias_leaf="", encs=("none",)):
     C.copy_specs(d, ["Ez.tla"])
     mod = ["---- MODULE MCEz ----", "EXTENDS Ez",
            "MCLeaves == <<%s>>" % ", ".join('"%s"' % l for l in leaves), "===="]
     open(os.path.join(d, "MCEz.tla"), "w").write("\n".join(mod) + "\n")
     lines = ["SPECIFICATION Spec", "CONSTANTS", "  Leaves <- MCLeaves",
-             "  Fmts = {%s}" % ", ".join('"%s"' % f for f in fmts), "  MaxChanges = %d" % max_changes]
+             "  Fmts = {%s}" % ", ".join('"%s"' % f for f in fmts), "  MaxChanges = %d" % max_changes,
+             '  AliasLeaf = "%s"' % alias_leaf, "  FileEncs = {%s}" % ", ".join('"%s"' % e for e in encs)]
     for t in ("BUG_EnvUnderFile", "BUG_VerifyIntermediate"):
         lines.append("  %s = %s" % (t, "TRUE" if t in toggles else "FALSE"))
     lines += ["INVARIANTS Precedence VerifyFailureIffFullInvalid VerifyOnlyFull VisibleValid NoIntermediateExposure", "CHECK_DEADLOCK FALSE"]
@@ -36,6 +37,33 @@ def parse_cases(out):
             js = js[:js.rindex(">>")].strip()
             cases.append(json.loads(json.loads(js)))
     return cases
+
+
+def alias_cases(vh, scratch, seed, quick=True):
+    """C14 through the real ez entry points: the file supplies the aliased leaf under its alias name, with and without a
+    FileFieldNameEncoder; returns the property-level mismatches of those cases."""
+    d = scratch.sub("ezalias")
+    write_model(d, ["b", "r"], ["json"] if quick else FMTS, 1, alias_leaf="b", encs=("none", "kebab"))
+    res = C.run_tlc(d, "MCEz", "E.cfg", workers=1, timeout=2400)
+    if not res.ok:
+        raise C.Inconclusive("Ez.tla violates its own properties (%s): specification alarm" % res.violated)
+    cs = [c for c in parse_cases(res.out) if c["fopt"]["alias"] or c["fopt"]["enc"] != "none"]
+    rng = random.Random(seed)
+    if len(cs) > (1500 if quick else 20000):
+        cs = rng.sample(cs, 1500 if quick else 20000)
+    for i, c in enumerate(cs):
+        c["id"] = "ea%d" % i
+        c["cmdline"] = False
+    results, crashes = run_cases(vh, scratch, cs, workers=8, subcmd="ez")
+    byid = {c["id"]: c for c in cs}
+    out = []
+    for cid, first, stderr in crashes:
+        out.append(("process crashed in case %s: %s" % (cid, first), byid.get(cid)))
+    for r in results:
+        for m in r.get("mismatches") or []:
+            if m["kind"] in ("prop", "panic"):
+                out.append((m["detail"], byid.get(r["id"])))
+    return out, len(cs), res.distinct
 
 
 def run_check(pid, tier, replay=None):
@@ -73,14 +101,14 @@ def run_check(pid, tier, replay=None):
         cases += cs
         # sampled: four leaves (nested one included), all formats, two later file changes
         d = scratch.sub("ezs")
-        write_model(d, ["a", "c", "r", "m"], FMTS, 2)
+        write_model(d, ["a", "c", "r", "m", "b"], FMTS, 2, alias_leaf="b", encs=("none", "kebab"))
         n = 2500 if quick else 40000
         res2 = C.run_tlc(d, "MCEz", "E.cfg", workers=1, timeout=2400,
                          extra=["-simulate", "num=%d" % n, "-depth", "12", "-seed", str(seed)])
         cs2 = parse_cases(res2.out)
         if not cs2:
             raise C.Inconclusive("TLC simulation of Ez.tla emitted no cases:\n" + res2.out[-1500:])
-        runs.append({"leaves": ["a", "c", "r", "m"], "fmts": FMTS, "max_changes": 2, "simulated_behaviours": n, "cases": len(cs2), "exhaustive": False})
+        runs.append({"leaves": ["a", "c", "r", "m", "b"], "alias_leaf": "b", "file_key_casings": ["none", "kebab"], "fmts": FMTS, "max_changes": 2, "simulated_behaviours": n, "cases": len(cs2), "exhaustive": False})
         cases += cs2
         selftest = {}
         for tog in ("BUG_EnvUnderFile", "BUG_VerifyIntermediate"):
